@@ -150,6 +150,14 @@ SEEDS = {
     "C18g-empty-profile-skip-leaves-spectrum": ("C18", "updateCSR() on a field object for a bunch that carried charge in an earlier call and whose current profile is zero in every bin: an 'empty bucket' shortcut skips the transform and leaves the spectrum row of the last populated profile", ["C07"]),
     "C19g-hoisted-phase-term-not-scaled": ("C19", "linear RF with amplitude noise AND a non-zero phase offset in the same step: a loop-hoisting tidy-up scales the slope by the amplitude factor but no longer the phase term, the applied phase is phi/A while the record says phi", []),
     "C20g-nonregular-config-path-ignored": ("C20", "--config naming an existing path that is not a regular file (a directory, a FIFO): neither loaded nor refused, the run goes ahead with defaults", []),
+    "C02h-fraction-from-offset-origin-from-sum": ("C02", "an offset a few ulp below a whole number of cells (0.99999994, -1e-7, 4.9999995): the interpolation fraction is taken from the offset itself, the stencil origin from the rounded sum n/2+offset - the field moves k+1 cells", ["C01", "C15"]),
+    "C03h-sin-kick-rewrite-drops-cos-phis": ("C03", "the sinusoidal RF model with a synchronous phase that is not small (V0 a sizeable fraction of V_RF): a trigonometric rewrite of the kick drops cos(phi_s) from the slope", ["C05", "C19"]),
+    "C06h-scaling-uses-position-cell": ("C06", "a phase space whose position and energy axes have different cell sizes (API only): the wake scaling uses the position axis' cell where the energy cell belongs", ["C07"]),
+    "C09h-variance-by-raw-index-moments": ("C09", "a grid of 512 cells or more, a bunch 2-6 cells wide in the upper part of the grid: the variance is E[i^2]-E[i]^2 over the cell index in single precision (cancellation), widths off by 0.1-3 %", []),
+    "C01h-apply-index-widened-without-sign": ("C01", "a row displaced by about -n/2 cells or below with charge near the low end of the kick axis: apply() widens the unsigned 32-bit node index to 64 bit without sign extension, nodes encoded as negative numbers are dropped", ["C02", "C08"]),
+    "C07h-last-impedance-sample-left-out": ("C07", "an impedance table that ends below the Nyquist sample with a non-negligible last entry (short user table, tabulated resonator): the wake loop uses the index of the last non-zero sample as a count and leaves that sample out, the spectrum still counts it", ["C06", "C18"]),
+    "C10h-mean-by-nominal-population": ("C10", "a record at which the population has drifted from nominal AND the centroid is away from zero (wide start + RF modulation / strong wake): the first moments are divided by the nominal share", ["C09", "C04"]),
+    "C08h-clamp-limits-read-from-bunch0": ("C08", "--InterpolateClamped true with cubic interpolation and two or more bunches with different data: a new CPU implementation of the clamp reads the two limiting cells of the x-kick (drift) without the bunch offset, every bunch is clamped against bunch 0's cells", ["C01", "C03"]),
     "C10-": ("C10", "", []),
     "C17-": ("C17", "", []),
 }
